@@ -108,7 +108,7 @@ func runCacheKey(id string, parts []string) string {
 	})
 }
 
-func parseAddr(s string) netip.Addr {
+func c07ParseAddr(s string) netip.Addr {
 	if s == "x" || s == "" {
 		return netip.Addr{}
 	}
@@ -130,7 +130,7 @@ func runMarker(id string, parts []string) string {
 		var out []string
 		if f["probes"] != "" && f["probes"] != "-" {
 			for _, p := range strings.Split(f["probes"], ",") {
-				out = append(out, hx.Hex([]byte(m.Mark(parseAddr(p)))))
+				out = append(out, hx.Hex([]byte(m.Mark(c07ParseAddr(p)))))
 			}
 		}
 		return fmt.Sprintf("OK n=%d %s", m.IpLen(), strings.Join(out, ","))
@@ -270,7 +270,7 @@ func runHitMiss(id string, parts []string) string {
 			dnsmsg.ToLowerName(nn)
 			return &dnsmsg.Question{Name: nn, Class: dnsmsg.Class(hx.MustAtoi(cs)), Type: dnsmsg.Type(hx.MustAtoi(ts))}
 		}
-		a1, a2 := parseAddr(f["a1"]), parseAddr(f["a2"])
+		a1, a2 := c07ParseAddr(f["a1"]), c07ParseAddr(f["a2"])
 		q1, q2 := mkq(n1, f["c1"], f["t1"]), mkq(n2, f["c2"], f["t2"])
 		g := fmt.Sprintf("g1=%s g2=%s ", hx.Hex([]byte(c.IpMark(a1))), hx.Hex([]byte(c.IpMark(a2))))
 		c.Store(q1, a1, resp)
